@@ -57,6 +57,8 @@ type xdsResourceManager struct {
 type notifier struct {
 	ch  chan struct{}
 	err error
+	// waiters is the number of callers waiting on ch, guarded by the manager's lock
+	waiters int
 }
 
 func (n *notifier) notify(err error) {
@@ -169,6 +171,7 @@ func (m *xdsResourceManager) Get(ctx context.Context, rType xdsresource.Resource
 		// only send one request for this resource
 		m.client.Watch(rType, rName, false)
 	}
+	nf.waiters++
 	m.mu.Unlock()
 	// Set fetch timeout
 	ctx, cancel := context.WithTimeout(ctx, m.opts.XDSSvrConfig.GetFetchXDSTimeout())
@@ -193,10 +196,24 @@ func (m *xdsResourceManager) Get(ctx context.Context, rType xdsresource.Resource
 		return res, nil
 	case <-ctx.Done():
 		verifYield(ctx, 4, nil)
-		// remove the notifier if timeout.
+		// leave the notifier if timeout. It is shared by every caller waiting for this resource:
+		// only the last one removes it, and only if it is still the registered one.
 		m.mu.Lock()
-		delete(m.notifierMap[rType], rName)
+		nf.waiters--
+		if nf.waiters == 0 && m.notifierMap[rType][rName] == nf {
+			delete(m.notifierMap[rType], rName)
+		}
 		m.mu.Unlock()
+		select {
+		case <-nf.ch:
+			// delivered while this caller was timing out: the resource is not lost
+			if nf.err == nil {
+				if res, ok = m.getFromCache(rType, rName); ok {
+					return res, nil
+				}
+			}
+		default:
+		}
 		return nil, fmt.Errorf("[XDS] manager, fetch %s resource[%s] timeout",
 			xdsresource.ResourceTypeToName[rType], rName)
 	}
